@@ -19,7 +19,7 @@ import pathlib
 
 from sim import fixtures as fx
 from sim.runner import RunResult
-from sim.tofuworld import HOSTS, PORTS, TofuWorld, load_cert, read_table
+from sim.tofuworld import HOSTS, PORTS, TofuWorld, load_cert, read_table, spell
 
 PROPERTY = "C03"
 LEVEL = "exploration"
@@ -35,7 +35,7 @@ RULE = ("each run is a history of 1-12 operations drawn from get (with/without q
         "certificate, redirect or store mutation was exercised")
 PROBES = ["cert_changed_detected", "unreadable_cert_presented", "redirect_hop_checked",
           "first_use_pinned", "pinned_match", "import_applied", "revoke_then_refetch", "tofu_off",
-          "upload_checked", "ec_cert", "first_use_on_failing_endpoint", "overlapping_first_use", "near_miss_pin_imported"]
+          "upload_checked", "ec_cert", "first_use_on_failing_endpoint", "overlapping_first_use", "near_miss_pin_imported", "mixed_case_host_spelling", "server_speaks_first_tls12"]
 COMPONENTS = {
     "real": ["nauyaca.client.session.GeminiClient (get/upload/delete, redirects)",
              "nauyaca.client.protocol", "nauyaca.security.tofu.TOFUDatabase on a real sqlite file",
@@ -45,7 +45,8 @@ COMPONENTS = {
 ASSUMPTIONS = ["fingerprints are computed by the harness with hashlib over the DER the scripted "
                "server was loaded with, never with the repo's helper"]
 
-CERTS = fx.SERVER_CERTS + fx.BAD_CERTS
+CERTS = fx.SERVER_CERTS + fx.EXPIRED_CERTS + fx.BAD_CERTS
+CW = [4] * len(fx.SERVER_CERTS) + [3] * len(fx.EXPIRED_CERTS) + [1] * len(fx.BAD_CERTS)
 
 
 def run_one(ch):
@@ -60,12 +61,12 @@ def run_one(ch):
     certs = {}
     for h in HOSTS:
         for p in PORTS:
-            certs[(h, p)] = pool[ch.choose("cert0", len(pool), [4] * 6 + [1, 1] + [2] * (len(pool) - 8))]
+            certs[(h, p)] = pool[ch.choose("cert0", len(pool), CW + [2] * (len(pool) - len(CW)))]
     w.setup_servers(certs)
     nops = 1 + ch.choose("nops", 12)
     model = {}
     st = {"hist": [], "changed": 0, "unreadable": 0, "redir": 0, "first": 0, "match": 0,
-          "import": 0, "mutation": 0, "upload": 0, "refetch": 0, "failing": 0, "concurrent": 0, "nearmiss": 0}
+          "import": 0, "mutation": 0, "upload": 0, "refetch": 0, "failing": 0, "concurrent": 0, "nearmiss": 0, "mixedcase": 0, "speakfirst": 0}
     revoked = set()
 
     def endpoint(label):
@@ -73,6 +74,9 @@ def run_one(ch):
 
     def url_of(key, path="/", scheme="gemini"):
         h, p = key
+        h = spell(ch, h)
+        if h != key[0]:
+            st["mixedcase"] += 1
         return f"{scheme}://{h}{'' if p == 1965 else ':%d' % p}{path}"
 
     def check_table(step):
@@ -94,7 +98,7 @@ def run_one(ch):
                               tofu_db_path=pathlib.Path(w.db_path))
         db = client.tofu_db if tofu_on else TOFUDatabase(pathlib.Path(w.db_path))
         for i in range(nops):
-            op = ch.choose("op", 13, [10, 4, 2, 2, 2, 1, 1, 3, 8, 4, 1, 3, 3])
+            op = ch.choose("op", 14, [10, 4, 2, 2, 2, 1, 1, 3, 8, 4, 1, 3, 3, 3])
             if op in (0, 1, 2):
                 key = endpoint("ep")
                 kind = ["get", "upload", "delete"][op]
@@ -127,7 +131,7 @@ def run_one(ch):
                     if w.fail_mode.get(cur):
                         expect = ("fail", cur)      # verified/pinned, but no response comes
                         break
-                    tgt = w.redirect.get(cur)
+                    tgt = w.redirect.get(cur) if not w.speak_first.get(cur) else None
                     if kind == "get" and tgt is not None and hops < 4:
                         hops += 1
                         cur = tgt
@@ -263,7 +267,7 @@ def run_one(ch):
                 st["mutation"] += 1
             elif op == 8:
                 key = endpoint("sw")
-                c = pool[ch.choose("swcert", len(pool), [4] * 6 + [2, 2] + [2] * (len(pool) - 8))]
+                c = pool[ch.choose("swcert", len(pool), CW + [2] * (len(pool) - len(CW)))]
                 w.servers[key].cert = c
                 st["hist"].append(f"env: {key[0]}:{key[1]} now presents {c}")
                 continue
@@ -277,12 +281,23 @@ def run_one(ch):
                                         any(v == key for v in w.redirect.values())):
                     tgt = None
                 w.redirect[key] = tgt
-                st["hist"].append(f"env: {key[0]}:{key[1]} redirects to {tgt}")
+                if tgt is not None:
+                    w.redirect_spelling[key] = spell(ch, tgt[0], "rdcase")
+                st["hist"].append(f"env: {key[0]}:{key[1]} redirects to {tgt} "
+                                  f"(spelled {w.redirect_spelling.get(key)})")
                 continue
             elif op == 11:
                 key = endpoint("fm")
                 w.fail_mode[key] = ch.pick("failmode", [None, "close", "rst", "stall"], [2, 2, 2, 1])
                 st["hist"].append(f"env: {key[0]}:{key[1]} failure mode {w.fail_mode[key]}")
+                continue
+            elif op == 13:
+                key = endpoint("sf")
+                on = bool(ch.choose("sfon", 2))
+                w.speak_first[key] = on
+                w.servers[key].tls12 = on
+                st["speakfirst"] += 1 if on else 0
+                st["hist"].append(f"env: {key[0]}:{key[1]} speaks first over TLS 1.2: {on}")
                 continue
             elif op == 12 and tofu_on:
                 # two overlapping fetches of one endpoint that presents c1 to the first
@@ -335,7 +350,7 @@ def run_one(ch):
     st_map = {"cert_changed_detected": "changed", "unreadable_cert_presented": "unreadable",
               "redirect_hop_checked": "redir", "first_use_pinned": "first", "pinned_match": "match",
               "import_applied": "import", "upload_checked": "upload", "revoke_then_refetch": "refetch",
-              "first_use_on_failing_endpoint": "failing", "overlapping_first_use": "concurrent", "near_miss_pin_imported": "nearmiss"}
+              "first_use_on_failing_endpoint": "failing", "overlapping_first_use": "concurrent", "near_miss_pin_imported": "nearmiss", "mixed_case_host_spelling": "mixedcase", "server_speaks_first_tls12": "speakfirst"}
     for probe, k in st_map.items():
         if st[k]:
             res.stats[probe] += 1
